@@ -94,6 +94,8 @@ class SerializedWaiter(BaseModel):
     has_requirements: bool = Field(default=False)
     # Resolved event if available (serialized), None otherwise
     resolved_event: str | None = None
+    # True once the wait's timeout has fired and the step is due to receive TimeoutError
+    timed_out: bool = False
 
     @model_validator(mode="before")
     @classmethod
